@@ -356,7 +356,7 @@ def plan(tier, seed):
     # (flavours, share): dependency atoms and REQUIRED_USE carry the operators the property is about
     groups = [["dep"], ["dep"], ["required_use"], ["required_use"], ["license"], ["license", "required_use"],
               ["restrict", "src_uri"], ["src_uri_df", "src_uri"]]
-    valid, corrupt, reps = {"quick": (1600, 700, 1), "thorough": (100000, 40000, 2)}[tier]
+    valid, corrupt, reps = {"quick": (1200, 600, 1), "thorough": (100000, 40000, 2)}[tier]
     return [{"task": "gen", "flavors": g, "valid": valid, "corrupt": corrupt} for _ in range(reps) for g in groups]
 
 
